@@ -3,6 +3,13 @@ import PPLV.Watchdog.ProofsSafety
 /-! Preservation of `Safe` by every step of the system. -/
 namespace PPLV.Watchdog
 
+theorem FinOK.mono {σ σ' : St} {fin : Fin} (h : FinOK σ fin)
+    (hp : ∀ i, i ∈ ids σ'.pending → i ∈ ids σ.pending) (hu : ∀ i, i ∈ σ.used → i ∈ σ'.used) :
+    FinOK σ' fin := by
+  cases fin <;> simp only [FinOK] at h ⊢
+  · exact hu _ h
+  · exact ⟨hu _ h.1, fun x => h.2 (hp _ x)⟩
+
 /-- `PcOK` transfers to a state with the same program counter whose pending ids shrink, whose new
 expired ids were pending, whose `used`/births grow and which has no new destruction -/
 theorem PcOK.mono {σ σ' : St} (h : PcOK σ) (hs : Safe σ) (hpc : σ'.pc = σ.pc)
@@ -34,6 +41,7 @@ theorem PcOK.mono {σ σ' : St} (h : PcOK σ) (hs : Safe σ) (hpc : σ'.pc = σ.
   · exact hu _ h
   · exact hu _ h
   · exact ⟨hu _ h.1, fun x => h.2 (hp _ x)⟩
+  all_goals exact FinOK.mono h hp hu
 
 def Event.neutral (e : Event) : Prop :=
   (∀ id t b cs, e ≠ Event.fired id t b cs) ∧ (∀ id t, e ≠ Event.destroyed id t) ∧
